@@ -48,7 +48,8 @@ def prepare_matrix(work, tag, families=None, cfg=None, only=None):
             stem = f"m_{fam}_{ci // chunk}"
             src = os.path.join(work, stem + ".cairo")
             with open(src, "w") as f:
-                f.write(matrix.HEADER)
+                from matrix_extra import EXTRA_HEADERS
+                f.write(matrix.HEADER + EXTRA_HEADERS.get(fam, ""))
                 for e in part:
                     f.write(e.source())
             jobs.append((fam, src, os.path.join(work, f"{stem}.{tag}.json"), part))
@@ -119,7 +120,12 @@ def validate_witness(rp, w, fcost, strict_steps=True):
     real_kind = "Success" if "Success" in real else "Panic"
     sym_trace = [list(t) for t in w["trace"]]
     real_trace = resp["trace"][:len(sym_trace)]
-    if real_kind != kind or real[real_kind] != vals:
+    def same_vals(sym, real_vals):
+        if len(sym) != len(real_vals):
+            return False
+        # relocated pointers are not comparable: cells holding pointers are wildcards
+        return all(s.startswith("ptr:") or s == r for s, r in zip(sym, real_vals))
+    if real_kind != kind or (not w.get("uf") and not same_vals(vals, real[real_kind])):
         return False, f"result differs: sym={kind}{vals} real={real}", resp
     if real_trace != sym_trace:
         k = next((i for i, (a, b) in enumerate(zip(sym_trace, real_trace)) if a != b),
@@ -165,7 +171,8 @@ def generic(args, prop, worker, cfgs, confirm, level="model_checking", extra_tas
     tasks, meta = [], {}
     static_notes = []
     for tag, cfg in cfgs:
-        jobs = prepare_matrix(work, tag, families=families, cfg=cfg, only=args.only)
+        jobs = prepare_matrix(work, tag, families=families or args.families, cfg=cfg,
+                              only=args.only)
         for fam, src, dump_path, entries in jobs:
             if static_leg:
                 static_notes += static_leg(dump_path)
@@ -401,6 +408,7 @@ def main():
     ap.add_argument("prop")
     ap.add_argument("--tier", default=os.environ.get("VERIF_TIER", "quick"))
     ap.add_argument("--only", nargs="*")
+    ap.add_argument("--families", nargs="*")
     ap.add_argument("--seed", type=int, default=int(os.environ.get("VERIF_SEED", "0")))
     args = ap.parse_args()
     fn = {"C02": run_c02, "C03": run_c03, "C04": run_c04, "C06": run_c06,
